@@ -1,9 +1,10 @@
 // C01 harness: mesh values are immutable.  Generates branching derivation histories over real modeling.Mesh
 // values, runs them on the implementation, RE-READS EVERY LIVE POOL MEMBER AFTER EVERY STEP through the public
 // API, and writes each history as a Coq case for Check/C01.v:
-//   prop_ok = immutableb on the implementation's own snapshot sequences (direct oracle, no model),
-//   corr_ok = the heap model (Mesh/Heap.v, repaired Append) run on the same history reports the same error class
-//             at every step and the same observation of every member after every step.
+//
+//	prop_ok = immutableb on the implementation's own snapshot sequences (direct oracle, no model),
+//	corr_ok = the heap model (Mesh/Heap.v, repaired Append) run on the same history reports the same error class
+//	          at every step and the same observation of every member after every step.
 package main
 
 import (
@@ -26,8 +27,8 @@ type segment struct {
 
 type histStats struct {
 	steps, rereads, spareSteps, maxPool int
-	declared, crash                   int
-	changed                           []string // "member k changed at step t" (diagnostics for the replay)
+	declared, crash                     int
+	changed                             []string // "member k changed at step t" (diagnostics for the replay)
 }
 
 // runHistory executes the history and renders the case.
@@ -217,9 +218,10 @@ func main() {
 	addHistory(run, witness(), "fixed")
 	addHistory(run, witnessCallerSpare(), "fixed")
 	addHistory(run, witnessCubes(), "fixed")
-	r := hx.NewRng(run.Seed)
+	// hx.NewRng(seed) and hx.NewRng(seed+1) are the same stream one step apart: hash the seed first
+	r := hx.NewRng(hx.NewRng(run.Seed).U64())
 	for i := 0; i < run.N; i++ {
-		maxLen := r.Range(8, 16)
+		maxLen := r.Range(9, 16)
 		if run.Tier == "thorough" && r.Chance(1, 3) {
 			maxLen = r.Range(16, 36)
 		}
